@@ -4,6 +4,7 @@
   `&`, subshell, block), every printer option except KeepPadding.
 -/
 import ShVerif.Proofs.L4PrintGen
+import ShVerif.Proofs.L4ParseWF
 namespace ShVerif.Props.C01
 open ShVerif ShVerif.L4
 
@@ -301,19 +302,80 @@ example : ¬ posMono scrambledWitness := by
   unfold posMono
   decide +kernel
 
+/-! ## From source text: no hypothesis on the tree
+
+  `parse_WF` (`Proofs/L4ParseWF.lean`): whatever the model parser accepts is well formed and has
+  non-decreasing line numbers — the lexer only produces positions by `Pos.adv` along the input
+  (`lexAll_ok`: the flattened lines of the token stream are sorted, every word token is a
+  well-formed word), and the parser only copies token positions into the tree, in order, with the
+  constructors `wf` describes (`all_claims`: one invariant per parser function, by induction on
+  the fuel).  Hence the round trip holds for every tree that comes from source text. -/
+
+/-- the parser only builds well-formed trees with non-decreasing lines -/
+def parse_WF_statement : Prop :=
+  ∀ (l : Lang) (b : Bytes) (f : File), parse l b = .ok f → f.wf = true ∧ posMono f
+
+theorem parse_WF : parse_WF_statement := fun l b f h => L4.parse_wf_posMono l b f h
+
+/-- the empty file prints as one newline under every option set that is not refused -/
+theorem printFile_nil (o : Opts) (hr : refuse o = false) : printFile o ⟨.nil⟩ = .ok [10] := by
+  unfold printFile
+  simp [hr, P.stmtList, P.stmtListWith, P.stmtListLoop, P.newline, P.finish, P.init, P.gapw, P.advanceLine, render,
+    Piece.bytes]
+
+theorem parse_newline (l : Lang) : (match parse l [10] with | .ok f => f.norm.beq NStmts.nil | .error _ => false) = true := by
+  cases l <;> decide +kernel
+
+/-- **Round trip from source text** (fragment F0, every option set, every variant): if `src`
+    parses to `f` and `f` prints as `b`, then `b` parses to a tree with the same norm.  No
+    hypothesis on `f`: well-formedness and monotone positions come from `parse_WF`, and the empty
+    file (the only case `f.stmts = .nil`) is handled directly. -/
+theorem roundtrip_src (o : Opts) (l : Lang) (src : Bytes) (f : File) (b : Bytes) (hsrc : parse l src = .ok f)
+    (hp : printFile o f = .ok b) : ∃ f', parse l b = .ok f' ∧ f'.norm = f.norm := by
+  obtain ⟨hwf, hmono⟩ := parse_WF l src f hsrc
+  by_cases hne : f.stmts = .nil
+  · obtain ⟨ss⟩ := f
+    simp only at hne
+    subst hne
+    have hr : refuse o = false := by
+      cases h : refuse o with
+      | false => rfl
+      | true => unfold printFile at hp; simp [h] at hp
+    rw [printFile_nil o hr] at hp
+    cases hp
+    have := parse_newline l
+    cases hq : parse l [10] with
+    | error e => rw [hq] at this; cases this
+    | ok f' =>
+      rw [hq] at this
+      refine ⟨f', rfl, ?_⟩
+      simp only [File.norm, Stmts.norm] at this ⊢
+      cases hn : f'.stmts.norm with
+      | nil => rfl
+      | cons s r => rw [hn] at this; simp [NStmts.beq] at this
+  · exact roundtrip_partial o l f b hwf hmono hne hp
+
+/-- … and printing succeeds unless refused. -/
+theorem roundtrip_src_total (o : Opts) (hr : refuse o = false) (l : Lang) (src : Bytes) (f : File)
+    (hsrc : parse l src = .ok f) : ∃ b f', printFile o f = .ok b ∧ parse l b = .ok f' ∧ f'.norm = f.norm := by
+  obtain ⟨b, hb⟩ := print_total o hr f (parse_WF l src f hsrc).1
+  obtain ⟨f', h1, h2⟩ := roundtrip_src o l src f b hsrc hb
+  exact ⟨b, f', hb, h1, h2⟩
+
+/-- `f.stmts ≠ .nil` can fail for a parsed tree: the empty input (and any input of blank lines)
+    parses to the empty file -/
+example : (match parse .bash [] with | .ok f => f.norm.beq NStmts.nil | .error _ => false) = true := by
+  decide +kernel
+
 /-! ## Stated, not proved
 
-  Two parser facts.  They are definitions, not theorems: nothing below is claimed
-  (`parse_of_Prints` shows that the fuel suffices on every concrete syntax). -/
+  One parser fact.  A definition, not a theorem: nothing below is claimed (`parse_of_Prints` shows
+  that the fuel suffices on every concrete syntax). -/
 
 /-- fuel `|tokens|·6 + 8` is never used up, on any input -/
 def fuel_sufficient_statement : Prop :=
   ∀ (toks : List TokPos) (fuel : Nat), fuel ≥ parseFuelFor toks →
     parseToksF fuel toks = parseToks toks ∧ parseToks toks ≠ .error .outOfFuel
-
-/-- the parser only builds well-formed trees with non-decreasing lines -/
-def parse_WF_statement : Prop :=
-  ∀ (l : Lang) (b : Bytes) (f : File), parse l b = .ok f → f.wf = true ∧ posMono f
 
 /-- the hypotheses of the round trip are satisfiable: the tree the parser builds for
     `a b; ( c && d ) |` NEWLINE `{ e; }` NEWLINE `! 'x y' &` is well-formed, has monotone lines and
